@@ -22,7 +22,7 @@ EXPLANATION = (
 )
 ASSUMPTIONS = ["CPython ast parses /repo's source as the interpreter would",
                "frozen RTLIL cell signature table (port -> width parameter) in sa/rules/c07.py"]
-MIN_INSTANCES = {"R-07a": 30, "R-07b": 8, "R-07c": 2, "R-07d": 2, "R-07e": 3}
+MIN_INSTANCES = {"R-07f": 3, "R-07a": 30, "R-07b": 8, "R-07c": 2, "R-07d": 2, "R-07e": 3}
 
 # cell type -> [(port, width parameter)], from the Yosys manual's cell library chapter
 SIG_UNARY = [("A", "A_WIDTH"), ("Y", "Y_WIDTH")]
@@ -461,5 +461,79 @@ def _only(rule_fn, keep):
     return wrapped
 
 
-RULES = [("R-07a", r07a), ("R-07b", r07b), ("R-07c", r07c), ("R-07d", r07d), ("R-07e", r07e),
+def r07f(model, ctx):
+    """sigspec / io_sigspec: a run of bits is merged into one `wire [hi:lo]` chunk only while the next net lies on the SAME
+    wire at the NEXT bit; Wire.emit always declares the wire (zero-width ones too: connects and ports refer to them by name);
+    the automatic direction of a top-level IOPort is the union over all of its used bits."""
+    R = "R-07f"
+    for meth, table in (("sigspec", "self.nets"), ("io_sigspec", "self.ionets")):
+        f = model.func(f"{RTLIL}::ModuleEmitter.{meth}", optional=True)
+        if f is None:
+            continue
+        unpack = [st for st in ast.walk(f) if isinstance(st, ast.Assign) and isinstance(st.targets[0], ast.Tuple) and len(st.targets[0].elts) == 2
+                  and isinstance(st.value, ast.Subscript) and unparse(st.value.value) in ("self.nets", "self.ionets", "self.io_nets")]
+        need(len(unpack) == 1, f"{meth}: the (wire, bit) look-up of the first net of a run was not found")
+        wname, sname = (unparse(x) for x in unpack[0].targets[0].elts)
+        tbl = unparse(unpack[0].value.value)
+        loops = [w for w in ast.walk(f) if isinstance(w, ast.While) and tbl in unparse(w.test)]
+        need(len(loops) == 1, f"{meth}: the run-extending loop was not found")
+        w = loops[0]
+        # the running bit: a local initialised from the start bit and incremented in the loop
+        incs = [unparse(b.target) for b in w.body if isinstance(b, ast.AugAssign) and isinstance(b.op, ast.Add) and const_int(b.value) == 1]
+        conj = w.test.values if isinstance(w.test, ast.BoolOp) and isinstance(w.test.op, ast.And) else [w.test]
+        ok = False
+        for c in conj:
+            if isinstance(c, ast.Compare) and len(c.ops) == 1 and isinstance(c.ops[0], ast.Eq):
+                l, r = c.left, c.comparators[0]
+                for a, b in ((l, r), (r, l)):
+                    if isinstance(a, ast.Subscript) and unparse(a.value) == tbl and isinstance(b, ast.Tuple) and len(b.elts) == 2 and \
+                            unparse(b.elts[0]) == wname and unparse(b.elts[1]) in incs:
+                        ok = True
+        if not ok:
+            # two separate comparisons of the components
+            parts = {unparse(c) for c in conj}
+            ok = any(f"[0] == {wname}" in x or f"[0] is {wname}" in x for x in parts) and any(
+                any(f"[1] == {i}" in x for i in incs) for x in parts)
+        ctx.check(ok, R, f"ModuleEmitter.{meth}:run", "a chunk grows only along one wire, bit by bit",
+                  f"{meth} must extend a chunk only while the next net is (same wire, next bit): comparing the bit index alone merges "
+                  f"nets of different wires into one out-of-range slice of the first wire; loop test: {unparse(w.test)}", f"{RTLIL}:{w.lineno}")
+    fw = model.func(f"{RTLIL}::Wire.emit")
+    ps = [p for p in run_paths(fw.body) if p.how != "raise"]
+    need(ps, "Wire.emit: no completing path")
+    def declares(p):
+        for e in p.effects:
+            for c in ast.walk(e):
+                if isinstance(c, ast.Call) and c.args:
+                    t = template_of(c.args[0])
+                    if t is not None and t.skeleton().lstrip().startswith("wire "):
+                        return True
+        return False
+    ok = all(declares(p) for p in ps)
+    ctx.check(ok, R, "Wire.emit", "every path emits the `wire` declaration", "Wire.emit must declare the wire on every path "
+              "(also zero-width wires: connects, ports and cells still refer to them by name)", f"{RTLIL}:{fw.lineno}")
+    fio = model.func(f"{IR}::_compute_io_ports")
+    loops = [lp for lp in ast.walk(fio) if isinstance(lp, ast.For) and unparse(lp.iter) == "io_ports[port]"]
+    need(len(loops) == 1, "_compute_io_ports: the loop over the bits of a top-level IOPort was not found")
+    lp = loops[0]
+    v = unparse(lp.target)
+    ps = run_paths(lp.body, {"auto_dir": ast.Name(id="PREV", ctx=ast.Load())})
+    used = [p for p in ps if any(unparse(t) == f"{v} in module.ionet_dir" and pol for t, pol in p.conds)]
+    need(used, "_compute_io_ports: no path for a used bit")
+    ok = True
+    for p in used:
+        val = unparse(p.env.get("auto_dir")) if p.env.get("auto_dir") is not None else None
+        first = any(unparse(t) == "PREV is None" and pol for t, pol in p.conds) or any(unparse(t) == "PREV is not None" and not pol for t, pol in p.conds)
+        later = any(unparse(t) == "PREV is None" and not pol for t, pol in p.conds) or any(unparse(t) == "PREV is not None" and pol for t, pol in p.conds)
+        if first:
+            ok = ok and val == f"module.ionet_dir[{v}]"
+        elif later:
+            ok = ok and val in (f"PREV | module.ionet_dir[{v}]", f"module.ionet_dir[{v}] | PREV")
+        else:
+            ok = False
+    ctx.check(ok, R, "_compute_io_ports:auto-direction", "the inferred direction is the union (|) over all used bits",
+              "the automatic direction of a top-level IOPort must accumulate `|=` over every used bit: taking the last bit's direction "
+              "declares a port `input` that is driven inside, or `output` with undriven bits", f"{IR}:{lp.lineno}")
+
+
+RULES = [("R-07f", r07f), ("R-07a", r07a), ("R-07b", r07b), ("R-07c", r07c), ("R-07d", r07d), ("R-07e", r07e),
          ("R-04c", c04.r04c), ("R-04e", _only(c04.r04e, lambda c: c.startswith("rtlil.") or c.startswith("emit_cell_wires")))]
